@@ -518,14 +518,28 @@ func djb2(b []byte) uint64 {
 	return h
 }
 
-// c19Keys returns n distinct keys that share one of the 64 slots.
+// c19Keys returns n distinct keys that share one of the 64 slots.  Keys 1 and 2 are *twins* of key 0: same length and same
+// 64-bit djb2 hash (one byte raised by d, the next lowered by 33*d, beyond the three-byte prefilter), so a filter that
+// tells its elements apart by hash alone confuses them; the others only share the slot.
 func c19Keys(n int, slot uint64) [][]byte {
 	var out [][]byte
 	for i := 0; len(out) < n && i < 100000; i++ {
-		k := []byte(fmt.Sprintf("k%d", i))
-		if djb2(k)%64 == slot {
-			out = append(out, k)
+		k := []byte(fmt.Sprintf("key%dMZ", i))
+		if djb2(k)%64 != slot {
+			continue
 		}
+		if len(out) == 0 {
+			tw := wl.HashTwins(k, func(pos int, c byte) bool { return pos >= 3 && c > ' ' && c < 0x7f && c != ',' })
+			if len(tw) < 2 {
+				continue
+			}
+			out = append(out, k, tw[0], tw[1])
+			continue
+		}
+		out = append(out, k)
+	}
+	if len(out) > n {
+		out = out[:n]
 	}
 	return out
 }
